@@ -20,6 +20,9 @@ def get(name):
     elif name == "C12":
         from .engine_hash import HashWalkEngine
         e = HashWalkEngine()
+    elif name == "C16":
+        from .engine_container import ContainerEngine
+        e = ContainerEngine()
     else:
         raise KeyError(name)
     _cache[name] = e
